@@ -9,12 +9,30 @@ import numpy as np
 from .core import (HarnessError, INJECTED, SimBudget, digest_field, digest_log,
                    field_obs, fhex, is_finite_field, ulp, unhex)
 from .refmodel import Model
-from .trace import FlushSink, Recorder, patched_np
+from .trace import FlushSink, GlobalGuard, Recorder, fingerprint, patched_np
 from .world import IMPLICIT, World, deep_field_copy, mon_dict, tnum
 
 MIN_GAP_ULPS = 64
 # documented default of the library (read, not assumed, so that changing it is no alarm)
 DEFAULT_FREQ = getattr(tnum.timemodel, "_timemodel__default_monitor_freq", 10)
+
+
+def _spec_fp(d):
+    """Fingerprint of a monitors dictionary without the recorded outputs."""
+    return fingerprint({k: {kk: vv for kk, vv in v.items() if kk != "output"} if isinstance(v, dict) else v
+                        for k, v in d.items()})
+
+
+def _spec_fp_saved(fp):
+    """Same, from a full fingerprint taken earlier (drop the 'output' items)."""
+    if not (isinstance(fp, tuple) and fp and fp[0] == "d"):
+        return fp
+    out = ["d"]
+    for k, v in fp[1:]:
+        if isinstance(v, tuple) and v and v[0] == "d":
+            v = ("d",) + tuple(it for it in v[1:] if it[0] != repr("output"))
+        out.append((k, v))
+    return tuple(out)
 
 
 class _NullOut:
@@ -64,6 +82,7 @@ class OpRecord:
         self.args_mutated = None
         self.model_failed = False
         self.by_copy = False
+        self.mon_foreign = []
 
 
 class RunResult:
@@ -76,6 +95,7 @@ class RunResult:
         self.world = None
         self.model = None
         self.stats = {}
+        self.globals_changed = []
 
 
 def _resolve_times(places, times, hs, t0, tottime, H):
@@ -164,6 +184,7 @@ class Executor:
         saved_clock = tnum.myclock
         old_err = np.seterr(all="ignore")
         npseam = patched_np(self.rec, bool(self.sched.get("alloc")))
+        guard = GlobalGuard.get()
         try:
             npseam.__enter__()
             tnum.myclock = self.rec.clock
@@ -191,10 +212,23 @@ class Executor:
         finally:
             npseam.__exit__(None, None, None)
             tnum.myclock = saved_clock
+            self.res.globals_changed = guard.check_restore()
             np.seterr(**old_err)
         self.res.events = self.rec.events
         self.res.log_digest = digest_log(self.rec.events)
         return self.res
+
+    def _mon_dicts(self):
+        out = []
+        for i, d in enumerate(self.world.cmon):
+            if d is not None:
+                out.append(("constructor-level monitors of solver %d" % i, d))
+        for mid in sorted(self.mon_objs, key=repr):
+            out.append(("monitors dictionary #%s" % (mid,), self.mon_objs[mid]))
+        return out
+
+    def _mon_fingerprints(self):
+        return [(label, id(d), fingerprint(d)) for label, d in self._mon_dicts()]
 
     def oracle_disc(self):
         """Fresh, unrecorded discretisation used by the oracles for pure evaluations."""
@@ -248,6 +282,9 @@ class Executor:
         if org is None:
             return [fresh], "restart from a field that is no trajectory end state: fresh"
         traj, idx, is_fallback, osolver, oop = org
+        if osolver != s:
+            # integrator memory lives in the solver object: another object can only start afresh
+            return [fresh], "end state of another solver object's call: fresh"
         if op["f"].get("copy"):
             is_fallback = False  # a copy is never the solver's own final state object
             if traj is None:
@@ -255,9 +292,9 @@ class Executor:
         hist = self.solver_hist.get(s, [])
         if traj is None:
             # end state of a call whose own memory was unspecified: whatever continues it is too
-            if osolver == s and is_fallback:
+            if is_fallback:
                 return None, "continuation of a call with unspecified memory: unspecified"
-            return [fresh], "end state of another object's call with unspecified memory: fresh"
+            return [fresh], "end state (not the returned final state object) of a call with unspecified memory: fresh"
         cont = ("continue", (traj, idx), idx)
         if osolver == s and hist and hist[-1][0] == oop and hist[-1][1] == "completed" and is_fallback:
             return [cont], "immediate continuation from the returned final state"
@@ -334,6 +371,38 @@ class Executor:
             r._match = (label, traj, off)
             break
         return r._match
+
+    def singular_in_model(self, r):
+        """The call raised LinAlgError without injection: does a fresh copy of the
+        integrator memory taking the same step from the same state fail as well?
+        (then the configuration is numerically inadmissible: a discard)"""
+        if not isinstance(r.exc, np.linalg.LinAlgError) or not r.candidates:
+            return False
+        aborted = [x for x in r.trace.steps if x.status == "raised"]
+        if not aborted:
+            return False
+        x = aborted[-1]
+        nfull = len(r.trace.full_steps())
+        for label, traj, off in r.candidates:
+            try:
+                traj.advance(off + nfull, r.cfl, r.dtlocal)
+            except np.linalg.LinAlgError:
+                return True
+            except Exception:  # noqa
+                continue
+            if traj.broken or off + nfull >= len(traj.digs) or traj.digs[off + nfull] != x.dig_in:
+                continue
+            try:
+                if x.dt_is_array:
+                    t2 = traj.truncated(off + nfull)
+                    t2.integ.step(t2.q, x.dt)
+                else:
+                    traj.side(off + nfull, x.dt)
+            except np.linalg.LinAlgError:
+                return True
+            except Exception:  # noqa
+                continue
+        return False
 
     def _snap_mismatch(self, r, traj, off, full):
         """P2 for one candidate: every returned snapshot produced by a side step equals
@@ -501,6 +570,7 @@ class Executor:
         if sink is not None:
             kwargs["flush"] = sink
         stop_copy = dict(r.stop) if r.stop is not None else None
+        mon_fp_before = self._mon_fingerprints()
         # -- the call --------------------------------------------------------
         self.rec.begin_op(i, solver, r.fault_specs)
         fn = solver.solve if r.kind == "solve" else solver.restart
@@ -532,6 +602,16 @@ class Executor:
         r.qn = field_obs(qn) if qn is not None else None
         r.args_mutated = (list(np.asarray(ts_arg, dtype=float)) != list(ts)) or \
             (stop is not None and stop != stop_copy)
+        # monitor dictionaries: those not involved in this call must be untouched; the
+        # involved ones may only gain/replace the 'output' of their entries
+        involved = {id(d) for d in (self.world.cmon[s], mons) if d is not None}
+        r.mon_foreign = []
+        for (label, d), (lab2, ident, fp) in zip(self._mon_dicts(), mon_fp_before):
+            if id(d) in involved:
+                if _spec_fp(d) != _spec_fp_saved(fp):
+                    r.mon_foreign.append(label + " (its set of monitors or their parameters)")
+            elif fingerprint(d) != fp:
+                r.mon_foreign.append(label)
         r.mons = []
         for (level, name, e), nb in zip(mon_list, mon_before):
             o = e.get("output")
